@@ -2,9 +2,10 @@ PROP = dict(
     id="C37",
     engines=["c37"],
     go_tags=["c37"],
-    gen_files={},
+    gen_files={"MM/Gen/C37.lean": "c37"},
     lean_modules=["MM.Props.C37"],
     theorems=[
+        "MM.C37.C37_pattern_tie",
         "MM.C37.C37_no_dollar_id",
         "MM.C37.C37_single_pass",
         "MM.C37.C37_value_verbatim",
@@ -28,7 +29,8 @@ PROP = dict(
         "os.LookupEnv modelled as a partial map (theorems hold for every map)",
     ],
     assumptions=[
-        "the regexp literal and the callback are tied by behaviour (T-diff), not by parsing the regexp",
+        "the regexp is tied by its source text (C37_pattern_tie on the regenerated envVarRegex.String()) and by behaviour (T-diff); the "
+        "reading of that pattern as the byte-level matcher of the model is by inspection",
     ],
     manifest=dict(
         category="proof",
@@ -40,3 +42,19 @@ PROP = dict(
         technique="Lean 4 proof (tokenizer lemmas, structural induction) + differential correspondence harness",
     ),
 )
+
+
+def before_diff(c):
+    """Keep the oracle available when a regenerated fact breaks the theorems (the engine needs the model only)."""
+    import os
+    import shutil
+    import vlib
+
+    if getattr(c, "lake_ok", True) or not c.harness or "c37" in c.drivers:
+        return
+    ok, _out, _failed = vlib.lake_build(["drv_c37"])
+    src = os.path.join(vlib.LEAN, ".lake", "build", "bin", "drv_c37")
+    if ok and os.path.exists(src):
+        dst = os.path.join(c.tmp, "drv_c37")
+        shutil.copy2(src, dst)
+        c.drivers["c37"] = dst
